@@ -168,6 +168,9 @@ func valEqualSyntactic(a, b Val) bool {
 	case VRegex:
 		y, ok := b.(VRegex)
 		return ok && x == y
+	case VStrMap:
+		y, ok := b.(VStrMap)
+		return ok && x == y
 	case VFuncChoice:
 		y, ok := b.(VFuncChoice)
 		return ok && strings.Join(x.Conds, ",") == strings.Join(y.Conds, ",") && strings.Join(x.Keys, ",") == strings.Join(y.Keys, ",")
